@@ -5,8 +5,8 @@ From NW Require Proofs.ConcJoin Proofs.ConcLeave Proofs.ConcMisc.
 Import ListNotations.
 Open Scope N_scope.
 
-Lemma pc_family p : join_pc p \/ leave_pc p \/ other_pc p.
-Proof. destruct p as [[]| | | | | | | | |]; cbn; tauto. Qed.
+Lemma pc_family p : join_pc p \/ leave_pc p \/ other_pc p \/ acl_pc p.
+Proof. destruct p as [r| | | | | | | | | | |]; [destruct r|..]; cbn; tauto. Qed.
 
 Lemma cstep_run cf s t ok hint k :
   tlookup t (tasks s) = Some k ->
@@ -25,6 +25,7 @@ Qed.
 Definition seg_join_preserves := ConcJoin.seg_join_preserves.
 Definition seg_leave_preserves := ConcLeave.seg_leave_preserves.
 Definition seg_other_preserves := ConcMisc.seg_other_preserves.
+Definition seg_acl_preserves := ConcMisc.seg_acl_preserves.
 
 Section Assembly.
   Theorem cinv_step cf s e : fixed cf -> CInv s -> CInv (fst (cstep cf s e)).
@@ -34,8 +35,9 @@ Section Assembly.
     - now apply cinv_req.
     - destruct (tlookup t (tasks s)) as [k|] eqn:Hl.
       + rewrite (cstep_run cf s t ok hint k Hl).
-        destruct (pc_family (t_pc k)) as [H|[H|H]];
-          [apply seg_join_preserves | apply seg_leave_preserves | apply seg_other_preserves]; auto.
+        destruct (pc_family (t_pc k)) as [H|[H|[H|H]]];
+          [apply seg_join_preserves | apply seg_leave_preserves | apply seg_other_preserves | apply seg_acl_preserves];
+          auto.
       + unfold cstep. rewrite Hl. exact I.
     - now apply cinv_hangup.
     - now apply cinv_drop.
